@@ -279,8 +279,16 @@ def cleanup_program(draw: Callable) -> tuple[str, str]:
         else:
             stms.append(f"h({hargs}) : {body[-1]} :- {', '.join(body[:-1]) or 'q(X,Y)'}.")
             names.append("condhead")
-    if t.p(35):  # implication chain through a second predicate
-        stms.append(t.one(["k(X,Y) :- h(X,Y), p(X).", "k(X,Y) :- h(Y,X).", "k(X,Y) :- h(X,Y), not r(X,Y).", "k(X,Y) :- h(X,Y). k(X,Y) :- q(X,Y), p(X)."]))
+    if t.p(45):  # implication chain through a second predicate (positively, or - which must stop the chain - negatively)
+        stms.append(
+            t.one(
+                [
+                    "k(X,Y) :- h(X,Y), p(X).", "k(X,Y) :- h(Y,X).", "k(X,Y) :- h(X,Y), not r(X,Y).", "k(X,Y) :- h(X,Y). k(X,Y) :- q(X,Y), p(X).",
+                    "k(X,Y) :- q(X,Y), not h(X,Y).", "k(X,Y) :- r(X,Y), not h(X,Y).", "k(X,Y) :- q(X,Y), not not h(X,Y).", "k(X,Y) :- r(X,Y), not h(Y,X), p(X).",
+                    "m(X,Y) :- q(X,Y), not h(X,Y). k(X,Y) :- m(X,Y).",
+                ]
+            )
+        )
         names.append("chain")
     # users: (literal, variables it binds)
     user_atoms = [("h(A,B)", "AB"), ("h(A,B)", "AB"), ("h(B,A)", "AB"), ("h(A,A)", "A"), ("h(A,_)", "A"), ("k(A,B)", "AB"), ("k(B,A)", "AB")]
@@ -435,8 +443,12 @@ def symmetry_program(draw: Callable) -> tuple[str, str]:
         stms.append(f"{{ g({copies[0][0]},{copies[1][0]}) }} :- {b}.")
     elif kind < 10:
         w = "X" if "X" in copies[0] else copies[0][1] if ar > 1 else copies[0][0]
-        stms.append(f":- #count{{ {w} : {', '.join(lits + cmps)} }} >= {t.i(1, 2)}.")
-        names.append("inaggregate")
+        outer = t.one(["", "", "", f"lead({copies[0][0]})", f"lead({copies[1][0]})", "node(X)" if "X" in copies[0] else "", f"not q({copies[0][0]})"])
+        agg = f"#count{{ {w} : {', '.join(lits + cmps)} }} >= {t.i(1, 2)}"
+        parts = [agg, outer] if t.p(60) else [outer, agg]
+        hd = t.one(["", "", "alarm", f"alarm({copies[0][0]})" if copies[0][0] in outer and "not" not in outer else "alarm"])
+        stms.append(f"{hd} :- {', '.join(x for x in parts if x)}.")
+        names.append("inaggregate" + ("+outer" if outer else ""))
     elif kind < 11:
         w = "X" if "X" in copies[0] else copies[0][1] if ar > 1 else copies[0][0]
         stms.append(f"f(N) :- N = #sum{{ 1,{w} : {', '.join(lits + cmps)} }}.")
@@ -564,6 +576,11 @@ def sum_chains_program(draw: Callable) -> tuple[str, str]:
         c = f"{{ sh(D,L) }} 1 :- {body}, lv(L)."
         names.append("globalvar")
     stms = [c]
+    if t.p(12):
+        # three-place variant: an extra argument that consumers leave anonymous
+        stms = [f"{{ sh3(D,L,K) : psh(D,L), kind(K) }} 1 :- {body}."]
+        stms.append(t.one(["cost(X) :- X = #sum{ L,D : sh3(D,L,_) }.", ":~ sh3(D,L,_). [L@0,D]", "cost(X) :- X = #sum{ L,D,K : sh3(D,L,K) }.", "cost(D,X) :- X = #sum{ L : sh3(D,L,_) }, day(D).", "#minimize{ L,D : sh3(D,L,foo) }."]))
+        return "\n".join(stms), "sum:threeplace"
     if t.p(15):
         stms.append(t.one(["sh(D,L) :- fix(D,L).", "sh(D,1) :- day(D), force(D)."]))
         names.append("also_derived")
@@ -666,8 +683,17 @@ def math_program(draw: Callable) -> tuple[str, str]:
                     el += "; " + t.one(["1,c : it(_)", "W,o : ot(_,W)", "3"])
                 body.append(f"{name} = {fn}{{ {el} }}")
                 vs.append(name)
-            rel = t.i(0, 9)
-            if rel < 5:
+            rel = t.i(0, 12)
+            bound_by_lim = False
+            if rel >= 10:
+                expr = "+".join(vs) if t.p(70) else "-".join(vs)
+                if t.p(50):
+                    body.insert(0, "lim(L)")
+                    body.append(f"{expr} {t.op()} L" if t.p(60) else f"L {t.op()} {expr}")
+                else:
+                    body.append(f"T = {expr}")
+                    bound_by_lim = True
+            elif rel < 5:
                 expr = "+".join(vs) if t.p(60) else "-".join(vs)
                 body.append(f"{expr} {t.op()} {cterm()}")
             elif rel < 7 and len(vs) > 1:
@@ -677,6 +703,8 @@ def math_program(draw: Callable) -> tuple[str, str]:
             elif rel < 9:
                 body.append(f"{vs[0]}*{vs[-1]} {t.op()} {cterm()}")
             hv = t.one(["", "", vs[0], ",".join(vs)])
+            if bound_by_lim:
+                hv = "T"
             if grp and t.p(50):
                 hv = "G" + ("," + hv if hv else "")
             kindh = t.i(0, 9)
@@ -742,9 +770,21 @@ def inline_program(draw: Callable) -> tuple[str, str]:
     elif k < 11:
         stms.append(f"foo :- not hl({use_args.replace('V', '_').replace('F', '2')}).")
         names.append("negative_use")
-    else:
+    elif t.p(50):
         stms.append(f"foo(X) :- X = #sum{{ {tup} : hl({use_args}) }}. bar(X) :- X = #max{{ F : hl({use_args}) }}.")
         names.append("two_uses")
+    else:
+        u2 = use_args.replace("V", "V2").replace("F", "F2")
+        stms.append(
+            t.one(
+                [
+                    f"foo(X) :- X = #sum{{ {tup} : hl({use_args}), sel(V); {tup},x : hl({use_args}), not sel(V) }}." if grouped else f"foo(X) :- X = #sum{{ F : hl(F), sel(_); F,x : hl(F) }}.",
+                    f"foo(X) :- hl({u2}), F2 > 0, X = #sum{{ {tup} : hl({use_args}) }}.",
+                    f":~ hl({use_args}), hl({u2}), N = #count{{ B : tst(B,_) }}. [F+F2+N@1{',V,V2' if grouped else ''}]",
+                ]
+            )
+        )
+        names.append("two_uses_one_statement")
     if t.p(25):
         stms.append(t.one([":~ tst(B,C). [C@0,B]", ":~ oth(V,F). [F@0,V]", "#minimize{ 1,V : a(V) }."]))
         names.append("other_objective")
@@ -831,6 +871,15 @@ def duplication_program(draw: Callable) -> tuple[str, str]:
         return out
 
     stms = []
+    if t.p(15):
+        # wide atoms: the canonical renaming has to cope with more than ten variables
+        wide = ["leg(A,B,C,D,E,F)", "book(F,G,H,I,J,K)"] + ([t.one(["A < K", "B != J", "not bad(C)", "hub(F)"])] if t.p(50) else [])
+        hv = [t.one(["A,K", "A,J", "B,K", "C,H", "A,G,K"]) for _ in range(2)]
+        stms.append(f"cheap({hv[0]}) :- {', '.join(wide)}, low(A).")
+        stms.append(f"prem({hv[1]}) :- {', '.join(wide if t.p(60) else list(reversed(wide)))}, {t.one(['high(A)', 'not low(K)', 'high(K)'])}.")
+        if t.p(40):
+            stms.append(f":~ {', '.join(wide)}. [{t.one(['A', 'K', 'J'])}@1,A,K]")
+        return "\n".join(stms), "dup:wide"
     n = t.i(2, 3)
     for i in range(n):
         ren = renamings[i if t.p(70) else 0]
@@ -863,3 +912,66 @@ def duplication_program(draw: Callable) -> tuple[str, str]:
         stms.append(t.one(["q(X,Y) :- r(X,Y), p(X).", "p(X) :- q(X,Y), not s(X).", "{ s(X) } :- p(X)."]))
         names.append("recursive_or_choice")
     return "\n".join(stms), "dup:" + "+".join(sorted(set(names)) or ["bodies"])
+
+
+# ---------------------------------------------------------------- dependency / domains (C20)
+def dependency_program(draw: Callable) -> tuple[str, str]:
+    """predicates defined through choices, several rules, aggregates with static and choice-dependent elements,
+    negation, conditions and intervals - everything DomainPredicates has to abstract"""
+    t = T(draw)
+    names = []
+    stms = [t.one(["{ pk(G,V) : cand(G,V) }.", "{ pk(G,V) } :- cand(G,V).", "1 { pk(G,V) : cand(G,V) } 1 :- grp(G).", "pk(G,V) ; npk(G,V) :- cand(G,V)."])]
+    for _ in range(t.i(1, 3)):
+        k = t.i(0, 13)
+        if k == 0:
+            stms.append("tot(G,S) :- grp(G), S = #sum{ W,b : base(G,W); V,p : pk(G,V) }.")
+            names.append("sum_static_first")
+        elif k == 1:
+            stms.append("tot(G,S) :- grp(G), S = #sum{ V,p : pk(G,V); W,b : base(G,W) }.")
+            names.append("sum_choice_first")
+        elif k == 2:
+            stms.append("tot(G,S) :- grp(G), S = #count{ W : base(G,W); V : pk(G,V), V > 1 }.")
+            names.append("count_mixed")
+        elif k == 3:
+            stms.append("der(G,V) :- pk(G,V), not blocked(V).")
+            names.append("negation_static")
+        elif k == 4:
+            stms.append("der(G,V) :- cand(G,V), not pk(G,V).")
+            names.append("negation_choice")
+        elif k == 5:
+            stms.append("der(G,V) :- pk(G,V). der(G,V+1) :- pk(G,V), V < 3.")
+            names.append("two_rules")
+        elif k == 6:
+            stms.append("der(G,V) :- grp(G), V = 1..3, pk(G,_).")
+            names.append("interval")
+        elif k == 7:
+            stms.append("der(G,V) :- cand(G,V), ok(W) : pk(G,W).")
+            names.append("condition_choice")
+        elif k == 8:
+            stms.append("der(G,V) :- pk(G,V), cand(G,W) : base(G,W).")
+            names.append("condition_static")
+        elif k == 9:
+            stms.append("reach(G,V) :- pk(G,V). reach(G,W) :- reach(G,V), step(V,W).")
+            names.append("recursion")
+        elif k == 10:
+            stms.append("hi(G,M) :- grp(G), M = #max{ S : tot(G,S) }." if any("tot(" in x for x in stms) else "hi(G,M) :- grp(G), M = #max{ V : pk(G,V) }.")
+            names.append("minmax_user")
+        elif k == 11:
+            stms.append("der(G,V) :- pk(G,V), #sum{ W : base(G,W) } > 1.")
+            names.append("static_aggregate")
+        elif k == 12:
+            stms.append("2 <= #sum{ V,G : lim(G,V) : pk(G,V) }.")
+            names.append("headaggregate")
+        else:
+            stms.append("der(f(G),V*2) :- pk(G,V).")
+            names.append("function_arith")
+    # consumers that make the chain traits ask for domains
+    stms.append(
+        t.one(
+            [
+                "top(G,M) :- grp(G), M = #max{ V : der(G,V) }.", "top(M) :- M = #min{ V,G : der(G,V) }.", ":- der(G,V), der(G,W), V != W, grp(G).", "top(G,M) :- grp(G), M = #max{ S : tot(G,S) }.",
+                ":- 2 <= #count{ G : der(G,V), der(G2,V), G != G2 }.", "#minimize{ M,G : top(G,M) }.", "top(G,M) :- grp(G), M = #max{ V : pk(G,V) }.", "",
+            ]
+        )
+    )
+    return "\n".join(x for x in stms if x), "dep:" + "+".join(sorted(set(names)))
